@@ -12,7 +12,13 @@ trust away on a seeded sample:
      strings; coq/xcheck/Show_<engine>.v re-implements the driver's result printer in Gallina; Coq evaluates the
      model's own definitions with vm_compute and prints the indices of the cases whose text differs: `bad = []`.
 
-    python3 tools/xcheck.py <engine>|all [n] [seed]      exit 1 on a mismatch
+A mismatch (or a cases.v coqc rejects, or a driver that crashes) is a violation with no_input=True; the report goes to
+out.cov["extraction_crosscheck"][engine].  The Gallina printers mirror the drivers as they are: whoever changes what a
+driver prints changes coq/xcheck/Show_<engine>.v with it (the cross-check says so on the next run).
+
+    xcheck.run_for(pid, out, tier)                       the hook of ./check: every engine of ENGINE_OF[pid]
+    python3 tools/xcheck.py <engine>|all [n] [seed]      prints the report, exit 1 on a mismatch
+    XCHECK_DRIVER_<ENGINE>=<binary>                      development aid: cross-check a tampered copy of a driver
 """
 import fcntl, os, re, sys, time
 
@@ -29,6 +35,11 @@ ENGINE_OF = {
     "C12": ["select"], "C13": ["build"], "C14": ["build"], "C15": ["build"], "C16": ["loader"], "C17": ["main"],
     "C18": ["walker"], "C19": ["select"], "C20": ["select"],
 }
+
+
+class Unsupported(Exception):
+    """The wire line has no Gallina counterpart: a driver command without a mirror, an input the driver itself rejects, a
+    numeral too large to be written as a nat literal.  The line is left out and counted in the report (not_covered)."""
 
 
 # ------------------------------------------------------------------ Gallina term emitters
@@ -94,7 +105,7 @@ def gb(x):
 def gn(n):
     n = int(n)
     if not 0 <= n <= 5000:
-        raise ValueError("numeral out of the range the cross-check emits: %d" % n)
+        raise Unsupported("numeral above 5000")
     return str(n)
 
 
@@ -112,10 +123,6 @@ def csv(s, sep=","):
     return [] if s in ("", None) else s.split(sep)
 
 
-class Unsupported(Exception):
-    """The wire line uses a driver command the Gallina mirror does not cover (skipped, counted)."""
-
-
 # ------------------------------------------------------------------ running one engine
 ENGINES = {}   # name -> {"imports": "<Grog modules>", "gen": f(rng, n) -> wire lines, "conv": f(line, st) -> case term}
 
@@ -124,7 +131,8 @@ def compile_show(engine):
     """coqc coq/xcheck/XSupport.v and Show_<engine>.v when their .vo is older than the source or than any theories/*.vo."""
     th = os.path.join(vlib.COQ, "theories")
     vos = [os.path.join(th, f) for f in os.listdir(th) if f.endswith(".vo")]
-    with open(os.path.join(XDIR, ".lock"), "w") as lk:
+    os.makedirs(os.path.join(vlib.OCAML, "_build"), exist_ok=True)
+    with open(os.path.join(vlib.OCAML, "_build", ".lock-xcheck"), "w") as lk:
         fcntl.flock(lk, fcntl.LOCK_EX)
         prev = []
         for mod in ("XSupport", "Show_" + engine):
@@ -164,15 +172,27 @@ def run(engine, out=None, n=200, seed=None):
     rc, outs, err = vlib.run_lines(drv, lines)
     t_ocaml = time.time() - t
     if rc != 0 or len(outs) != len(lines):
-        raise RuntimeError("xcheck %s: driver failed rc=%s, %d answers for %d lines: %s" % (engine, rc, len(outs), len(lines), err[-500:]))
+        rep = {"engine": engine, "seed": seed, "cases": 0, "not_covered": {}, "ocaml_s": round(t_ocaml, 2), "coqc_s": 0.0,
+               "error": "driver failed: exit %s, %d answers for %d lines: %s" % (rc, len(outs), len(lines), err[-500:])}
+        out.violation("extraction cross-check: the OCaml driver of engine %s %s" % (engine, rep["error"][:300]),
+                      {"engine": engine, "seed": seed, "first_unanswered_input": lines[len(outs)] if len(outs) < len(lines) else None,
+                       "stderr": err[-2000:], "driver": drv}, no_input=True)
+        out.cov.setdefault("extraction_crosscheck", {})[engine] = rep
+        return rep
     st = {"defs": []}
     cases, idx, skipped = [], [], {}
     for i, (l, o) in enumerate(zip(lines, outs)):
         try:
+            if o.startswith(("driver-error", "model-error", "unknown-command", "error ")):
+                raise Unsupported("the driver reports " + o.split(" ")[0])
+            st["out"] = o
             cases.append((E["conv"](l, st), gline(o)))
             idx.append(i)
         except Unsupported as e:
             skipped[str(e)] = skipped.get(str(e), 0) + 1
+    if len(cases) < 0.75 * len(lines):
+        out.violation("extraction cross-check: only %d of %d generated inputs of engine %s have a mirror / an answer of the driver (%s)" % (
+            len(cases), len(lines), engine, skipped), {"engine": engine, "seed": seed, "not_covered": skipped}, no_input=True)
     compile_show(engine)
     d = os.path.join(vlib.scratch(), "xcheck-%s-%d" % (engine, time.time_ns()))
     os.makedirs(d)
@@ -715,6 +735,276 @@ def conv_tree(line, st):
 
 
 ENGINES["tree"] = {"imports": "Str Tree", "gen": gen_tree, "conv": conv_tree}
+
+
+# ------------------------------------------------------------------ engine lock (Lock.v; ocaml/lock/driver.ml)
+def gen_lock(rng, n):
+    lines = ["witness\tw1", "witness\tw2"]
+    while len(lines) < n:
+        np = 1 + rng.below(4)
+        dead = [p for p in range(np) if rng.chance(1, 6)]
+        lock = rng.choice(["absent", "absent", "blank", "pid%d" % rng.below(np + 1)])
+        toks = []
+        for _ in range(rng.below(26)):
+            p = rng.below(np + (1 if rng.chance(1, 10) else 0))
+            k = rng.below(20)
+            toks.append(("s%d" if k < 13 else "!%d" if k == 13 else rng.choice("cwrpxku") + "%d") % p)
+        lines.append("run\t%d\t%s\t%s\t%s" % (np, ",".join(map(str, dead)) or "-", lock, ",".join(toks) or "-"))
+    return lines[:n]
+
+
+def conv_lock(line, st):
+    f = line.split("\t")
+    if f == ["witness", "w1"]:
+        return "CWitness1"
+    if f == ["witness", "w2"]:
+        return "CWitness2"
+    if f[0] == "run" and len(f) == 5:
+        ev = {"c": "TryCreate", "w": "WritePid", "r": "Read", "p": "Probe", "x": "Remove", "k": "Wake", "u": "Unlock", "!": "Crash"}
+        toks = []
+        for t in csv("" if f[4] == "-" else f[4]):
+            toks.append(app("TNext", gn(t[1:]), gs(t)) if t[0] == "s" else app("TEv", app(ev[t[0]], gn(t[1:]))))
+        lk = "None" if f[3] == "absent" else "Some None" if f[3] == "blank" else "Some (Some %s)" % gn(f[3][3:])
+        return app("CRun", gn(f[1]), gl([gn(x) for x in csv("" if f[2] in ("-", "") else f[2])]), lk, gl(toks))
+    raise Unsupported(f[0])
+
+
+ENGINES["lock"] = {"imports": "Str Lock", "gen": gen_lock, "conv": conv_lock}
+
+
+# ------------------------------------------------------------------ engine loader (Loader.v; ocaml/loader/driver.ml)
+def gen_loader(rng, n):
+    """Scanner cases need the decoder's answers for the annotation blocks of the content: the blocks come from the driver's
+    `blocksmk`/`blockssh` (not mirrored), the answers are drawn here (any function is a legitimate oracle for this check)."""
+    import c16
+    b, fname = c16.b, "x.grog.sh"
+    pk = lambda: c16.gen_package(rng, wild=rng.chance(1, 2))
+    scans = [(k, c, c16.LONG) for k in ("mk", "sh") for c in rng.sample(c16.SCAN_NASTIES, n // 10)]
+    for _ in range(n // 5):
+        d = pk()
+        dm = c16.mk_projection(d)
+        if dm is not None and rng.chance(1, 2):
+            c = ("mk", b(c16.render_makefile(rng, dm)))
+        else:
+            c = ("sh", b(c16.render_script(rng, d["targets"][0])))
+        if rng.chance(1, 3):
+            c = (c[0] if rng.chance(5, 6) else "mk", c16.mutate(rng, c[1]))
+        scans.append((c[0], c[1], rng.choice([None, None, c16.LONG, 40])))
+    sfx = lambda m: ("\t%d" % m) if m else ""
+    rc, bl, err = vlib.run_lines(vlib.build_driver("loader"), [("blocksmk\t%s" if k == "mk" else "blockssh\t%s") % hx(c) + sfx(m) for k, c, m in scans])
+    if rc != 0 or len(bl) != len(scans):
+        raise RuntimeError("xcheck loader: blocks* failed: " + err[-300:])
+
+    def annot():
+        t = c16.gen_target(rng, rng.choice(c16.NAMES + c16.ODD_NAMES), c16.NAMES, True)
+        x = lambda v: hx(b(v))
+        return c16.sx_annot({"name": x(t["name"] if rng.chance(2, 3) else ""), "deps": [x(v) for v in t.get("dependencies", [])],
+                             "inputs": [x(v) for v in t.get("inputs", [])], "tags": [x(v) for v in t.get("tags", [])],
+                             "fingerprint": [(x(k), x(v)) for k, v in t.get("fingerprint", {}).items()],
+                             "env": [(x(k), x(v)) for k, v in t.get("environment_variables", {}).items()], "timeout": x(t.get("timeout", "")),
+                             "has_platforms": "platforms" in t, "platforms": [x(v) for v in t.get("platforms", [])],
+                             "outputs": [x(v) for v in t.get("outputs", [])]})
+    lines = []
+    for (k, c, m), l in zip(scans, bl):
+        tab = c16.sx_list(["( %s %s )" % (blk, "E" if rng.chance(1, 6) else annot()) for blk in sorted(set(l.split("\t")[1:]))])
+        lines.append(("scanmk\t%s\t%s" % (hx(c), tab) if k == "mk" else "scansh\t%s\t%s\t%s" % (hx(fname), hx(c), tab)) + sfx(m))
+        if k == "mk" and rng.chance(1, 3):
+            lines.append("guardmk\t%s" % hx(c) + sfx(m))
+    ws = [b" ", b"\t", b"\n", b"\r", b"\x0b", b"\x0c", b"\xc2\xa0", b"\xc2\x85", b"\xe2\x80\x83", b"\xe3\x80\x80", b"\xe2\x80", b"\xa0", b"a", b"#", b"x y"]
+    while len(lines) < n:
+        k = rng.below(10)
+        globs = {p: (None if p == c16.BAD_GLOB or rng.chance(1, 25) else rng.sample(c16.FILES, rng.below(4))) for p in c16.IN_LIT + c16.IN_GLOB + c16.EXCL + [c16.BAD_GLOB]}
+        if k < 5:
+            d = pk()
+            lines.append("enrich\t%s\t%s\t%s\t%s" % (hx(b(rng.choice(c16.PKG_PATHS))), c16.sx_package(d), c16.glob_table(d, globs), c16.dur_table(d)))
+        elif k < 8:
+            paths = rng.sample(c16.DET_DIRS, 1 + rng.below(3))
+            frags = [(p if not rng.chance(1, 8) else paths[0], pk()) for p in paths]
+            lines.append(c16.merge_line(frags, globs))
+        else:
+            lines.append("trim\t" + hx(b"".join(rng.choice(ws) for _ in range(rng.below(8)))))
+    return rng.shuffle(lines)[:n]
+
+
+def parse_sx(x):
+    """S-expression over atoms: nested python lists of strings."""
+    toks = [t for t in x.split(" ") if t]
+
+    def one(i):
+        if toks[i] == "(":
+            items, i = [], i + 1
+            while toks[i] != ")":
+                v, i = one(i)
+                items.append(v)
+            return items, i + 1
+        if toks[i] == ")":
+            raise Unsupported("sx the driver rejects")
+        return toks[i], i + 1
+    v, i = one(0)
+    if i != len(toks):
+        raise Unsupported("sx the driver rejects")
+    return v
+
+
+def conv_loader(line, st):
+    f = line.split("\t")
+    s = lambda h: intern(st, unhx(h), 6)
+
+    def need(c):
+        if not c:
+            raise Unsupported("sx shape the driver rejects")
+    strs = lambda x: (need(isinstance(x, list)), gl([s(a) for a in x]))[1]
+    prs = lambda x: (need(isinstance(x, list) and all(isinstance(e, list) and len(e) == 2 for e in x)), gl([gpair(s(a), s(c)) for a, c in x]))[1]
+    optl = lambda x: "None" if x == "N" else "Some %s" % par(strs(x))
+
+    def annot(x):
+        need(isinstance(x, list) and len(x) == 9)
+        name, deps, ins, tags, fp, env, tmo, plats, outs = x
+        return app("mkAnnot", s(name), strs(deps), strs(ins), strs(tags), prs(fp), prs(env), s(tmo), optl(plats), strs(outs))
+
+    def td(x):
+        need(isinstance(x, list) and len(x) == 13)
+        name, cmd, deps, ins, excl, outs, bn, checks, tags, fp, plats, env, tmo = x
+        return app("mkTD", s(name), s(cmd), strs(deps), strs(ins), strs(excl), strs(outs), s(bn), prs(checks), strs(tags), prs(fp), optl(plats),
+                   prs(env), s(tmo))
+
+    def pd(x):
+        need(isinstance(x, list) and len(x) == 4 and isinstance(x[1], list) and isinstance(x[2], list))
+        return app("mkPD", s(x[0]), gl([td(t) for t in x[1]]), gl([(need(isinstance(a, list) and len(a) == 2), app("mkAD", s(a[0]), s(a[1])))[1] for a in x[2]]),
+                   optl(x[3]))
+
+    def table(x, val):
+        """Hashtbl.replace: the last row of a key wins"""
+        need(isinstance(x, list))
+        rows = {}
+        for r in x:
+            need(isinstance(r, list) and len(r) == 2 and isinstance(r[0], str))
+            rows[r[0]] = "None" if r[1] == "E" else "Some %s" % par(val(r[1]))
+        return gl([gpair(s(k), v) for k, v in rows.items()])
+    mxl = lambda xs: gopt(gn(xs[0]) if xs else None)
+    if f[0] == "scanmk" and len(f) in (3, 4):
+        return app("CScanMk", s(f[1]), table(parse_sx(f[2]), annot), mxl(f[3:]))
+    if f[0] == "scansh" and len(f) in (4, 5):
+        return app("CScanSh", s(f[1]), s(f[2]), table(parse_sx(f[3]), annot), mxl(f[4:]))
+    if f[0] == "guardmk" and len(f) in (2, 3):
+        return app("CGuardMk", s(f[1]), mxl(f[2:]))
+    if f[0] == "enrich" and len(f) == 5:
+        return app("CEnrich", s(f[1]), pd(parse_sx(f[2])), table(parse_sx(f[3]), strs), table(parse_sx(f[4]), s))
+    if f[0] == "merge" and len(f) == 4:
+        frs = parse_sx(f[1])
+        need(isinstance(frs, list) and all(isinstance(x, list) and len(x) == 2 for x in frs))
+        return app("CMerge", gl([gpair(s(x[0]), pd(x[1])) for x in frs]), table(parse_sx(f[2]), strs), table(parse_sx(f[3]), s))
+    if f[0] == "trim" and len(f) == 2:
+        return app("CTrim", s(f[1]))
+    raise Unsupported(f[0])
+
+
+ENGINES["loader"] = {"imports": "Str Label Loader", "gen": gen_loader, "conv": conv_loader}
+
+
+# ------------------------------------------------------------------ engine walker (Walker.v; ocaml/walker/driver.ml)
+def parse_show(x):
+    d = dict(kv.split("=") for kv in x.strip().split(" "))
+    return {k: ([int(i) for i in v.split(",") if i] if k in "PRQXOFSA" or k in ("cp", "cmd", "rok", "rfail") else v) for k, v in d.items()}
+
+
+def gen_walker(rng, n):
+    """Sessions (graph, then ev / state / enabled / obs lines) along random walks of the model: the walks and the states after
+    each of their events come from the driver (`walk`, `replay`), the observations are what a quiescent real walker would
+    report in a state a few events ahead (sometimes perturbed, so that the BREAK texts are printed too)."""
+    import walkerlib as wl
+    drv = vlib.build_driver("walker")
+    nsess = n // 5 + 2
+    specs = []
+    for _ in range(nsess):
+        g = rng.choice(list(wl.TINY.values())) if rng.chance(1, 4) else wl.family_graph(rng, 7)[1]
+        specs.append((rng.choice([1, 2, 2, 3]), rng.below(2), wl.deps_str(g), len(g)))
+    walks = ["walk\t%d\t%d\t%s\t%d\t%d" % (w, f, ds, rng.below(10 ** 6), rng.choice([0, 0, 30, 100])) for w, f, ds, _ in specs]
+    rc, wo, err = vlib.run_lines(drv, walks)
+    evs = [[e for e in o.split(" | ")[0].split(" ", 2)[2].split(";") if e] if o.startswith("walk ") and o.count(" ") > 2 else [] for o in wo]
+    replays = ["replay\t%d\t%d\t%s\t%s" % (w, f, ds, ";".join(ev)) for (w, f, ds, _), ev in zip(specs, evs)]
+    rc, ro, err = vlib.run_lines(drv, replays)
+    lines = []
+    for (w, f, ds, size), ev, r, wl_, rl in zip(specs, evs, ro, walks, replays):
+        states = [parse_show(x.split(" -> ")[1]) for x in r.split(" | ")] if ev else []
+        lines.append("graph\t%d\t%d\t%s" % (w, f, ds))
+        stop = rng.below(len(ev) + 1)
+        for k in range(stop):
+            c = rng.below(12)
+            if c == 0:
+                lines.append(rng.choice(["state", "enabled"]))
+            elif c == 1:
+                lines.append("ev\t" + rng.choice(["Start", "Pick", "FinishOk", "FinishFail", "Reject", "CancelRecv", "CmdStart", "FinishCancelled"]) +
+                             " %d" % rng.below(size + 1) if rng.chance(2, 3) else "ev\t" + rng.choice(["CtxCancel", "WorkerExit", "WalkReturn"]))
+            elif c < 5:
+                d = states[max(0, min(len(states) - 1, k - 1 + rng.below(3)))]
+                sets = {"S": d["Q"] + d["X"] + d["O"] + d["F"] + d["A"], "Enq": d["Q"], "B1": [i for i in d["X"] if i not in d["cmd"]],
+                        "B2": [i for i in d["X"] if i in d["cmd"]], "Ok": d["O"], "Fail": d["F"]}
+                if rng.chance(1, 5):
+                    k2 = rng.choice(sorted(sets))
+                    sets[k2] = sets[k2] + [rng.below(size)] if rng.chance(1, 2) or not sets[k2] else sets[k2][1:]
+                fields = [",".join(map(str, sets[x])) for x in ("S", "Enq", "B1", "B2", "Ok", "Fail")] + [d["ret"]]
+                if d["ret"] == "1" or rng.chance(1, 4):
+                    fields += [",".join(map(str, d["rok"])), ",".join(map(str, d["rfail"]))]
+                lines.append("obs\t" + "\t".join(fields))
+            lines.append("ev\t" + ev[k])
+        lines.append(rng.choice(["state", "enabled"]))
+        if rng.chance(1, 2):
+            lines.append(rng.choice([wl_, rl]))
+    return lines[:n]
+
+
+def conv_walker(line, st):
+    f = line.split("\t")
+    ints = lambda x: [int(i) for i in x.split(",") if i != ""]
+    nl = lambda x: gl([gn(i) for i in ints(x)])
+    graph = lambda x: gl([nl(ds) for ds in x.split(";")] if x != "" else [])
+
+    def event(x):
+        y = x.strip().split(" ")
+        if y in (["CtxCancel"], ["WorkerExit"], ["WalkReturn"]):
+            return y[0]
+        if len(y) == 2 and y[0] in ("Start", "CancelRecv", "Pick", "CmdStart", "Reject", "FinishOk", "FinishFail", "FinishCancelled"):
+            return app(y[0], gn(y[1]))
+        raise Unsupported("event the driver rejects")
+    cur = st.setdefault("walker", {"w": "1", "f": "false", "g": "[]", "pre": []})
+
+    def sess(k, mutates=False):
+        c = app("CSess", cur["w"], cur["f"], cur["g"], gl(cur["pre"]), k)
+        if mutates:
+            cur["pre"] = cur["pre"] + [k]
+        return c
+    if f[0] == "graph" and len(f) == 4:
+        cur.update({"w": gn(f[1]), "f": gb(f[2] == "1"), "g": graph(f[3]), "pre": []})
+        return sess("KGraph")
+    if f == ["state"]:
+        return sess("KState")
+    if f == ["enabled"]:
+        return sess("KEnabled")
+    if f[0] == "ev" and len(f) == 2:
+        return sess(app("KEv", event(f[1])), True)
+    if f[0] == "obs" and len(f) in (8, 10):
+        ret = "Some %s" % gpair(nl(f[8]), nl(f[9])) if len(f) == 10 else "None"
+        return sess(app("KObs", *[nl(x) for x in f[1:7]], gb(f[7] == "1"), ret), True)
+    if f[0] == "replay" and len(f) == 5:
+        return app("CReplay", gn(f[1]), gb(f[2] == "1"), graph(f[3]), gl([gpair(event(e), gs(e)) for e in f[4].split(";") if e != ""]))
+    if f[0] == "walk" and len(f) == 6:
+        o = st["out"]      # the events the OCaml walk chose are part of the case: they are re-run inside Coq
+        if not o.startswith("walk ") or " | " not in o:
+            raise Unsupported("walk answer")
+        evs = o.split(" | ")[0].split(" ", 2)
+        return app("CWalk", gn(f[1]), gb(f[2] == "1"), graph(f[3]), gl([event(e) for e in (evs[2].split(";") if len(evs) > 2 else []) if e]))
+    raise Unsupported(f[0])
+
+
+ENGINES["walker"] = {"imports": "Str Graph Walker", "gen": gen_walker, "conv": conv_walker}
+
+
+# ------------------------------------------------------------------ entry point for ./check
+def run_for(pid, out, tier="quick"):
+    """Cross-check every engine property pid relies on (the one-line hook in ./check, after mod.run)."""
+    for engine in ENGINE_OF.get(pid.upper(), []):
+        run(engine, out, 200 if tier == "quick" else 1000)
 
 
 # ------------------------------------------------------------------ command line
